@@ -511,8 +511,6 @@ def rule_lengths(cx, rec, rule="K3"):
     """equality implies equal lengths: under 'the operands differ in a length' the result of == is false"""
     tu, pl = cx.tu, cx.pl
     for ka, kb in cx.pairs:
-        if cx.quick and (ka, kb) not in (("vec", "vec"), ("cref", "cref"), ("elem", "elem"), ("cref", "elem")):
-            continue
         fn = cx.fname(ka, kb, "eq")
         r = cx.ret(ka, kb, "eq")
         base = cx.base_facts(ka, kb)
